@@ -152,13 +152,16 @@ theorem logGrows_applyFront (s : BSt) (f : FOp) : LogGrows s (Backend.applyFront
     exact (LogGrows.ofEq rfl).trans (logGrows_reapSinks _ _)
   | query => exact LogGrows.refl _
 
-theorem logGrows_foldFront (ops : List FOp) (e : BSt → FOp → Ev) (s1 : BSt) :
-    LogGrows s1 (ops.foldl (fun s f => (Backend.applyFront s f).1.emit (e s f)) s1) := by
+theorem logGrows_foldFront (ops : List FOp) (skip : FOp → Bool) (e : BSt → FOp → Ev) (s1 : BSt) :
+    LogGrows s1 (ops.foldl (fun s f => (if skip f then (s, "noop") else Backend.applyFront s f).1.emit (e s f)) s1) := by
   induction ops generalizing s1 with
   | nil => exact LogGrows.refl _
   | cons f fs ih =>
     rw [List.foldl_cons]
-    exact ((logGrows_applyFront s1 f).trans (LogGrows.emit _ _)).trans (ih _)
+    refine LogGrows.trans ?_ (ih _)
+    split
+    · exact LogGrows.emit _ _
+    · exact (logGrows_applyFront s1 f).trans (LogGrows.emit _ _)
 
 theorem logGrows_runInj (table : List (Nat × Nat × List FOp)) (s : BSt) (site : Nat) :
     LogGrows s (Backend.runInj table s site) := by
@@ -167,7 +170,9 @@ theorem logGrows_runInj (table : List (Nat × Nat × List FOp)) (s : BSt) (site 
   split
   · exact LogGrows.ofEq rfl
   · exact LogGrows.trans (LogGrows.ofEq rfl)
-      (logGrows_foldFront _ (fun s f => Ev.inj site _ f.show (Backend.applyFront s f).2) _)
+      (logGrows_foldFront _ (fun f => decide (site = 9) && f.needsManagerLock)
+        (fun s f => Ev.inj site _ f.show (if (decide (site = 9) && f.needsManagerLock) = true then (s, "noop")
+          else Backend.applyFront s f).2) _)
 
 /-! ### the Flush event: every active sink is flushed, then the flag is raised -/
 
@@ -250,10 +255,6 @@ theorem log_cleanupContexts (s : BSt) : (Backend.cleanupContexts s).log = s.log 
   split
   · rfl
   · exact log_cleanupGo _ _
-
-theorem processEvent_flush (s : BSt) (st : Stmt) (f : Nat) (hk : st.kind = .flush f) :
-    processEvent s st = (flushSinks s, none, some f) := by
-  unfold processEvent; rw [hk]
 
 /-- **The Flush step.** When the backend processes a Flush event (it is the minimum front), it flushes every
     active sink, pops the event, (reports failure counters, cleans up contexts) and only then raises the flag:
@@ -405,14 +406,14 @@ theorem resume_flag (s : BSt) (a : Nat) (x : Actor) (f : Nat) (hx : s.actor a = 
 
 /-- under the C05 hypotheses: once a popped event `st` is in the pop log, every record with a strictly smaller
     timestamp accepted by any context has been popped (a context that still holds records is registered) -/
-theorem earlier_popped {s : BSt} (hF : FI none [] s) (hG : GI s) (hp : GracePremise s) {i : Nat} {st : Stmt}
-    (hst : st ∈ (s.th i).popped) {k : Nat} {r : Stmt} (hr : r ∈ (s.th k).accepted)
+theorem earlier_popped {s : BSt} (hF : FI none [] s) (hG : GI s) (hg : s.cfg.grace ≠ 0)
+    (hr : s.cfg.refreshAfterSample = true) (hp : GracePremise s) {i : Nat} {st : Stmt}
+    (hst : st ∈ (s.th i).popped) {k : Nat} {r : Stmt} (hr' : r ∈ (s.th k).accepted)
     (hlt : r.ts < st.ts) : r ∈ (s.th k).popped := by
-  obtain ⟨fl, hI⟩ := hG
-  have o := hI.ord (premI_of_premise hp)
+  obtain ⟨fl, hI, o⟩ := hG.ord hg hr hp
   have hpl := hF.plog i st hst
-  rw [hF.cons k, List.append_assoc] at hr
-  rcases List.mem_append.mp hr with h | h
+  rw [hF.cons k, List.append_assoc] at hr'
+  rcases List.mem_append.mp hr' with h | h
   · exact h
   · exfalso
     have hk : k ∈ s.registry := hI.reg k (by
